@@ -150,7 +150,8 @@ func (a *orValueLoader) literal(lex lexeme.LexEvent) {
 
 		CompileBasic(&typ, false)
 
-		lex := a.node.BasisLexEventOfSchemaForNode()
+		// The place of the item itself, not of the node: the types of one "or"
+		// rule are checked in the order in which they are written.
 		name := a.rootSchema.AddUnnamedType(&typ, lex.File(), lex.Begin())
 
 		a.
